@@ -95,6 +95,9 @@ enum Move {
     RemainderForgery { c: u8 },
     /// g
     RemainderOverDegree { c: u8 },
+    /// n: a SHORTER remainder (every power-of-two length that can hold the distinct last-layer
+    /// query points) that agrees with the committed one at every queried point
+    RemainderShorter { c: u8 },
     /// i
     DropLastLayer,
     /// k
@@ -115,6 +118,7 @@ impl Move {
             Move::RemainderCoefficient { .. } => "f0",
             Move::RemainderForgery { .. } => "f",
             Move::RemainderOverDegree { .. } => "g",
+            Move::RemainderShorter { .. } => "n",
             Move::DropLastLayer => "i",
             Move::LastLayerSolve => "k",
         }
@@ -128,7 +132,7 @@ impl Move {
             Move::UnderstateSmallerDomain { shift, channel_true_domain } => json!({"id": self.id(), "shift": shift, "channel_true_domain": channel_true_domain}),
             Move::LayerValue { layer, index } => json!({"id": self.id(), "layer": layer, "index": index}),
             Move::RemainderCoefficient { index } => json!({"id": self.id(), "index": index}),
-            Move::RemainderForgery { c } | Move::RemainderOverDegree { c } => json!({"id": self.id(), "c": c}),
+            Move::RemainderForgery { c } | Move::RemainderOverDegree { c } | Move::RemainderShorter { c } => json!({"id": self.id(), "c": c}),
         }
     }
     fn from_json(v: &Value) -> Option<Move> {
@@ -147,6 +151,7 @@ impl Move {
             "e" => Move::LayerValue { layer: u("layer")? as usize, index: u("index")? as usize },
             "f0" => Move::RemainderCoefficient { index: u("index")? as usize },
             "f" => Move::RemainderForgery { c: u("c")? as u8 },
+            "n" => Move::RemainderShorter { c: u("c")? as u8 },
             "g" => Move::RemainderOverDegree { c: u("c")? as u8 },
             _ => return None,
         })
@@ -293,6 +298,7 @@ const PART_F0: &str = "f0: single remainder coefficient changed";
 const PART_F: &str = "f: adaptive remainder substitution within the degree bound";
 const PART_G: &str = "g: adaptive remainder substitution above the degree bound";
 const PART_M: &str = "m: forged remainder offered with no layer commitments (emptied adversarial channel; second verifier on a drained default channel)";
+const PART_N: &str = "n: shorter remainder agreeing with the committed one at every queried point";
 const PART_I: &str = "i: last layer removed from the proof";
 const PART_K: &str = "k: last-layer sibling solved to meet the committed remainder";
 
@@ -612,6 +618,7 @@ where
                         v.push(Move::RemainderForgery { c });
                     }
                     v.push(Move::RemainderOverDegree { c: 2 });
+                    v.push(Move::RemainderShorter { c: 1 });
                     if sh.layers >= 1 {
                         v.push(Move::DropLastLayer);
                     }
@@ -878,6 +885,71 @@ where
                         },
                         _ => {},
                     }
+                }
+            },
+            // ---- n ---------------------------------------------------------------------------
+            Move::RemainderShorter { c } => {
+                let base = AdvChannel::<E, H>::from_proof(&proved.proof, &proved.commitments, domain, cfg.folding).unwrap_or_else(|e| mck::report::machinery(&e));
+                let rs = base.remainder.len();
+                let t = last_xs.len();
+                let r_lo: Vec<E> = base.remainder.iter().rev().copied().collect();
+                // the interpolant of the committed remainder through the queried last-layer points
+                let mut interp = vec![E::ZERO; t];
+                for j in 0..t {
+                    // L_j(x) = prod_{m != j} (x - x_m) / (x_j - x_m), expanded
+                    let others: Vec<B> = last_xs.iter().enumerate().filter(|(m, _)| *m != j).map(|(_, x)| *x).collect();
+                    let mut den = B::ONE;
+                    for x in &others {
+                        den *= last_xs[j] - *x;
+                    }
+                    let yj = eval_naive(&r_lo, last_xs[j]);
+                    let lj = vanishing::<E>(&others, yj * E::from(den.inv()), 0);
+                    for (i, v) in lj.iter().enumerate() {
+                        interp[i] += *v;
+                    }
+                }
+                let cval: E = forge_constant(*c, seed ^ mck::fnv(cfg.key().as_bytes()));
+                let mut len = t.next_power_of_two().max(1);
+                let mut built = false;
+                while len < rs {
+                    let mut f_lo = vec![E::ZERO; len];
+                    for (i, v) in interp.iter().enumerate() {
+                        f_lo[i] += *v;
+                    }
+                    if len > t {
+                        for (i, v) in vanishing::<E>(&last_xs, cval, len - 1 - t).iter().enumerate() {
+                            f_lo[i] += *v;
+                        }
+                    }
+                    let agrees = last_xs.iter().all(|x| eval_naive(&f_lo, *x) == eval_naive(&r_lo, *x));
+                    if !agrees {
+                        mck::report::machinery(&format!("C09 move n: shorter remainder is mis-built for {}", cx.key(&positions, mv)));
+                    }
+                    // the same polynomial as the committed one (its high coefficients are zero) is not a substitution
+                    let differs = (0..rs).any(|i| r_lo[i] != f_lo.get(i).copied().unwrap_or(E::ZERO));
+                    if differs {
+                        built = true;
+                        let served: Vec<E> = f_lo.iter().rev().copied().collect();
+                        let what = format!("remainder of {rs} coefficients replaced by one of {len} coefficients that agrees with it at the {t} distinct last-layer query points (hence with every folded evaluation) and is within the degree bound: only the comparison with the remainder commitment can reject it");
+                        let mut ch = AdvChannel::<E, H>::from_proof(&proved.proof, &proved.commitments, domain, cfg.folding).unwrap_or_else(|e| mck::report::machinery(&e));
+                        ch.remainder = served.clone();
+                        let (o, q, pz) = (opts(), qvals.clone(), positions.clone());
+                        let res = mck::catch(move || run_verifier::<B, E, H, _>(&mut ch, o, n - 1, &q, &pz));
+                        judge(&mut out, PART_N, "accepted:remainder-substitution:shorter", &cx, &positions, mv, &what, res);
+                        let mut raw2 = raw.clone();
+                        raw2.remainder = elements_to_bytes(&served);
+                        let res2 = match proof_from_bytes(&raw2.print()) {
+                            Ok(Ok((pf, true))) => verify_default::<B, E, H>(pf, proved.commitments.clone(), domain, opts(), n - 1, &qvals, &positions),
+                            // a remainder length the proof format refuses is a rejection at decode time
+                            Ok(Ok((_, false))) | Ok(Err(_)) => Ok(Err(Reject::Channel("FriProof bytes with the shorter remainder do not decode".into()))),
+                            Err(p) => Err(p),
+                        };
+                        judge(&mut out, PART_N, "accepted:remainder-substitution:shorter", &cx, &positions, mv, &what, res2);
+                    }
+                    len *= 2;
+                }
+                if !built {
+                    skipped_any = true;
                 }
             },
             // ---- k ---------------------------------------------------------------------------
